@@ -331,76 +331,7 @@ def install_base(p: Patcher, modules_threading=(), modules_time=()):
 
 
 # ---------------------------------------------------------------------- line-level pre-emption
-_MON = getattr(sys, "monitoring", None)
-_TOOL = 4
-_mon_state = {"registered": False, "codes": {}, "instr": {}}
-
-
-def _on_line(code, lineno):
-    sim = CURRENT[0]
-    if sim is not None and sim.monitor_on:
-        sim.line_event()
-
-
-def _on_instr(code, offset):
-    sim = CURRENT[0]
-    if sim is not None and sim.monitor_on:
-        sim.line_event()
-
-
-def codes_of_module(m):
-    out = {}
-
-    def add(c):
-        if id(c) in out:
-            return
-        out[id(c)] = c
-        for k in c.co_consts:
-            if isinstance(k, types.CodeType):
-                add(k)
-
-    def visit(o, depth=0):
-        if isinstance(o, (staticmethod, classmethod)):
-            o = o.__func__
-        if isinstance(o, property):
-            for f in (o.fget, o.fset, o.fdel):
-                if f:
-                    visit(f)
-        elif isinstance(o, types.FunctionType):
-            if o.__code__.co_filename == m.__file__:
-                add(o.__code__)
-        elif isinstance(o, type) and o.__module__ == m.__name__ and depth < 3:
-            for v in vars(o).values():
-                visit(v, depth + 1)
-
-    for v in list(vars(m).values()):
-        visit(v)
-    return list(out.values())
-
-
 def enable_monitoring(modules, instr_funcs=(), instr_on=False):
-    """Enable local LINE events on the code objects of `modules` (idempotent per code object); the
-    functions in instr_funcs additionally get INSTRUCTION events iff instr_on (set explicitly on every
-    call, because local events persist in the process and runs must not depend on earlier runs)."""
-    if _MON is None:
-        return 0
-    if not _mon_state["registered"]:
-        _MON.use_tool_id(_TOOL, "wdsim")
-        _MON.register_callback(_TOOL, _MON.events.LINE, _on_line)
-        _MON.register_callback(_TOOL, _MON.events.INSTRUCTION, _on_instr)
-        _mon_state["registered"] = True
-    n = 0
-    for m in modules:
-        for c in codes_of_module(m):
-            if id(c) not in _mon_state["codes"]:
-                _mon_state["codes"][id(c)] = c
-                _MON.set_local_events(_TOOL, c, _MON.events.LINE)
-            n += 1
-    for f in instr_funcs:
-        c = f.__code__
-        _mon_state["codes"][id(c)] = c
-        want = _MON.events.LINE | (_MON.events.INSTRUCTION if instr_on else 0)
-        if _mon_state["instr"].get(id(c)) != want:
-            _mon_state["instr"][id(c)] = want
-            _MON.set_local_events(_TOOL, c, want)
-    return n
+    """Statement-level pre-emption points are compiled into the watchdog modules by wdsim.instrument (AST
+    instrumentation at import); whether a run uses them is Sim.monitor_on.  Kept for call-site compatibility."""
+    return 0
